@@ -114,6 +114,11 @@ fn main() {
             fs::write(&args[3], serde_json::to_vec_pretty(&m).unwrap()).unwrap();
             exit(0);
         }
+        "determinism" => {
+            let prop = args.get(2).cloned().unwrap_or_default();
+            let runs = arg_val(&args, "--runs").and_then(|s| s.parse().ok()).unwrap_or(2000);
+            exit(driver::determinism(&prop, Tier::Quick, root_seed(), runs));
+        }
         "run-one" => {
             driver::silence_stdio();
             driver::init_process();
